@@ -19,6 +19,7 @@ mod c16t;
 mod c19;
 mod c20;
 mod p1;
+mod r5;
 mod util;
 
 use util::*;
@@ -50,6 +51,7 @@ fn dispatch(cmd: &str) -> Option<RunFn> {
 		"c15" => c15::run,
 		"c18" => c18::run,
 		"c11" => c11::run,
+		"r5" => r5::run,
 		_ => return None,
 	})
 }
